@@ -527,7 +527,7 @@ def register(cat, simple, binary, with_scalar, _perm, _dims_subset, gen_ttm, run
     # --------------------------------------------------------------- module level
     def gen_khatrirao(c, r):
         rk = c.g.randint(1, 3)
-        ids = [c.fresh(np.asfortranarray(rand_array(c.g, (c.g.randint(1, 3), rk)))) for _ in range(c.g.randint(2, 3))]
+        ids = [c.fresh(np.asfortranarray(rand_array(c.g, (c.g.randint(1, 3), rk))) if c.g.random() < 0.7 else np.ascontiguousarray(rand_array(c.g, (c.g.randint(1, 3), rk)))) for _ in range(c.g.randint(1, 3))]
         return {"operands": ids, "reverse": c.g.random() < 0.3, "as_list": c.g.random() < 0.5}
 
     def run_khatrirao(eng, ops, st):
@@ -554,15 +554,20 @@ def register(cat, simple, binary, with_scalar, _perm, _dims_subset, gen_ttm, run
         st["dimorder"] = _perm(c.g, n) if c.g.random() < 0.3 else None
         st["optdims"] = sorted(c.g.sample(range(n), c.g.randint(1, n - 1))) if c.g.random() < 0.35 else None
         st["fixsigns"] = c.g.random() < 0.8
+        # mode lists handed over as caller-owned integer arrays (operands of the call like any other)
+        for name in ("dimorder", "optdims"):
+            if st[name] is not None and c.g.random() < 0.5:
+                st["operands"] = list(st["operands"]) + [c.fresh(np.array(st[name], dtype=int))]
+                st[name + "_operand"] = len(st["operands"]) - 1
         return st
 
     def run_cp_als(eng, ops, st):
         init = ops[1] if st["init"] == "ktensor" else st["init"]
         kw = {}
         if st.get("dimorder") is not None:
-            kw["dimorder"] = st["dimorder"]
+            kw["dimorder"] = ops[st["dimorder_operand"]] if st.get("dimorder_operand") is not None else st["dimorder"]
         if st.get("optdims") is not None:
-            kw["optdims"] = st["optdims"]
+            kw["optdims"] = ops[st["optdims_operand"]] if st.get("optdims_operand") is not None else st["optdims"]
         return ttb.cp_als(ops[0], st["rank"], init=init, maxiters=st["maxiters"], printitn=0, fixsigns=st.get("fixsigns", True), **kw)
 
     op("cp_als", ("T", "S"), gen_cp_als, run_cp_als, weight=1.5)
@@ -594,15 +599,23 @@ def register(cat, simple, binary, with_scalar, _perm, _dims_subset, gen_ttm, run
         x = c.obj(r)
         if x.norm() == 0:
             return None
+        st: Dict[str, Any] = {"operands": [r], "tol": 0.3, "ranks": None}
         if c.g.random() < 0.5:
-            return {"operands": [r], "tol": 0.3, "ranks": None}
-        # 0 = "choose this rank from the tolerance"
-        return {"operands": [r, c.fresh(np.array([c.g.choice([0, c.g.randint(1, s)]) for s in x.shape], dtype=int))], "tol": 0.3, "ranks": "operand"}
+            # 0 = "choose this rank from the tolerance"
+            st["operands"] = [r, c.fresh(np.array([c.g.choice([0, c.g.randint(1, s)]) for s in x.shape], dtype=int))]
+            st["ranks"] = "operand"
+        if x.ndims >= 2 and c.g.random() < 0.3:
+            st["operands"] = list(st["operands"]) + [c.fresh(np.array(_perm(c.g, x.ndims), dtype=int))]
+            st["dimorder_operand"] = len(st["operands"]) - 1
+        return st
 
     def run_hosvd(eng, ops, st):
+        kw = {}
+        if st.get("dimorder_operand") is not None:
+            kw["dimorder"] = ops[st["dimorder_operand"]]
         if st["ranks"] is None:
-            return ttb.hosvd(ops[0], st["tol"], verbosity=0)
-        return ttb.hosvd(ops[0], st["tol"], verbosity=0, ranks=ops[1])
+            return ttb.hosvd(ops[0], st["tol"], verbosity=0, **kw)
+        return ttb.hosvd(ops[0], st["tol"], verbosity=0, ranks=ops[1], **kw)
 
     op("hosvd", "T", gen_hosvd, run_hosvd, weight=1.0)
 
@@ -613,13 +626,24 @@ def register(cat, simple, binary, with_scalar, _perm, _dims_subset, gen_ttm, run
         ranks = [c.g.randint(1, s) for s in x.shape]
         dimorder = _perm(c.g, x.ndims) if c.g.random() < 0.3 else None
         if c.g.random() < 0.5:
-            return {"operands": [r], "ranks": ranks, "init": "random", "dimorder": dimorder}
-        ids = [c.fresh(np.asfortranarray(rand_array(c.g, (s, rk)))) for s, rk in zip(x.shape, ranks)]
-        return {"operands": [r] + ids, "ranks": ranks, "init": "list", "guess_operands": list(range(1, 1 + len(ids))), "dimorder": dimorder}
+            st: Dict[str, Any] = {"operands": [r], "ranks": ranks, "init": "random", "dimorder": dimorder, "n_init": 0}
+        else:
+            ids = [c.fresh(np.asfortranarray(rand_array(c.g, (s, rk)))) for s, rk in zip(x.shape, ranks)]
+            st = {"operands": [r] + ids, "ranks": ranks, "init": "list", "guess_operands": list(range(1, 1 + len(ids))), "dimorder": dimorder, "n_init": len(ids)}
+        if dimorder is not None and c.g.random() < 0.5:
+            st["operands"] = list(st["operands"]) + [c.fresh(np.array(dimorder, dtype=int))]
+            st["dimorder_operand"] = len(st["operands"]) - 1
+        if c.g.random() < 0.3:
+            st["operands"] = list(st["operands"]) + [c.fresh(np.array(ranks, dtype=int))]
+            st["ranks_operand"] = len(st["operands"]) - 1
+        return st
 
     def run_tucker_als(eng, ops, st):
-        init = list(ops[1:]) if st["init"] == "list" else "random"
-        T, Uinit, info = ttb.tucker_als(ops[0], st["ranks"], maxiters=2, init=init, printitn=0, dimorder=st.get("dimorder"))
+        n_init = st.get("n_init", len(ops) - 1)
+        init = list(ops[1 : 1 + n_init]) if st["init"] == "list" else "random"
+        dimorder = ops[st["dimorder_operand"]] if st.get("dimorder_operand") is not None else st.get("dimorder")
+        ranks = ops[st["ranks_operand"]] if st.get("ranks_operand") is not None else st["ranks"]
+        T, Uinit, info = ttb.tucker_als(ops[0], ranks, maxiters=2, init=init, printitn=0, dimorder=dimorder)
         return (T, [u for u in Uinit if u is not None], info)
 
     op("tucker_als", "T", gen_tucker_als, run_tucker_als, weight=1.0)
